@@ -10,6 +10,8 @@ FIXED = [
     ("C01", ["delivered_to_new_owner:after_object_saw_pid_free:sig", "delivered_to_new_owner:after_object_saw_pid_free:set",
              "no_NoSuchProcess_for_gone_target:after_object_saw_pid_free:sig", "no_NoSuchProcess_for_gone_target:after_object_saw_pid_free:set"],
      "fix: never signal or change a PID that was seen gone", "exit+reap -> is_running()/failed kill -> pid reused -> kill()/nice()/ionice()/... reach the new owner"),
+    ("C01", ["pid0_setting_reached_the_caller:nice", "pid0_setting_reached_the_caller:ionice", "pid0_setting_reached_the_caller:affinity"],
+     "fix: nice(), ionice() and cpu_affinity() setters on PID 0", "Process(0).nice(5) with PID 0 listed -> setpriority(PRIO_PROCESS, 0) renices the caller"),
     ("C02", ["is_running_False_want_True:after_clock_step", "eq_False_want_True:after_clock_step"],
      "fix: boot_time() after a system clock update", "btime step + boot_time() -> same live process compares unequal, is_running() False"),
     ("C03", ["leak:PermissionError:children", "leak:PermissionError:children_rec"],
